@@ -105,6 +105,18 @@ func TestC16(t *testing.T) {
 					} else {
 						scfg := peer.ServerConfig()
 						scfg.CurvePreferences = []tls.CurveID{grp}
+						if k%4 >= 2 {
+							// while this connection waits for the server's answer to its first hello,
+							// other connections of the process build theirs (a busy client): what
+							// they draw must not reach into this connection's extension
+							scfg.GetConfigForClient = func(*tls.ClientHelloInfo) (*tls.Config, error) {
+								for o := 0; o < 24; o++ {
+									buildHello(&tls.Config{ServerName: "other.example.test"}, id, prep)
+								}
+								return nil, nil
+							}
+							r.Count("hrr_with_other_connections_built_in_between", 1)
+						}
 						opts := peer.Opts{}
 						if k%2 == 0 {
 							// every other HelloRetryRequest also carries a cookie (added before the server's
